@@ -173,42 +173,39 @@ def e2e_units():
         {'unit': 'api_e2e_read', 'props': ['C06', 'C04'], 'tu': 'api', 'configs': ['def64', 's1p16'], 'quick_configs': ['s1p16'],
          'roots': E2E_COMMON + ['re:api::e2e_member_.*', 're:api::e2e_element_.*', 're:api::e2e_nested_.*'],
          'stubs': ['DefaultAllocator__instance'], 'spec': SPEC, 'native': True,
-         'obligations': [e('read_missing_never_allocates', 'h_e2e_read_missing', 'CANARY_E2E_READ', ['C06', 'C04'], ['E2E_READ=1']),
-                         e('read_missing_member_of_new_document', 'h_e2e_read_missing', 'CANARY_E2E_READ', ['C06', 'C04'], ['E2E_READ=1', 'READ_SEL=0', 'READ_ROOT=0x00']),
-                         e('read_missing_element_of_empty_array', 'h_e2e_read_missing', 'CANARY_E2E_READ', ['C06', 'C04'], ['E2E_READ=1', 'READ_SEL=6', 'READ_ROOT=0x40']),
-                         e('read_missing_nested_member_of_empty_object', 'h_e2e_read_missing', 'CANARY_E2E_READ', ['C06', 'C04'], ['E2E_READ=1', 'READ_SEL=7', 'READ_ROOT=0x20'])]},
-        {'unit': 'api_e2e_set', 'props': ['C05', 'C04'], 'tu': 'api', 'configs': ['def64', 's1p16'], 'quick_configs': ['s1p16'],
+         'obligations': [e('read_missing_never_allocates', 'h_e2e_read_missing', 'CANARY_E2E_READ', ['C06', 'C04'], ['E2E_READ=1'], cls='B'),
+                         e('read_missing_member_of_new_document', 'h_e2e_read_missing', 'CANARY_E2E_READ', ['C06', 'C04'], ['E2E_READ=1', 'READ_SEL=0', 'READ_ROOT=0x00'], cls='B'),
+                         e('read_missing_element_of_empty_array', 'h_e2e_read_missing', 'CANARY_E2E_READ', ['C06', 'C04'], ['E2E_READ=1', 'READ_SEL=6', 'READ_ROOT=0x40'], cls='B'),
+                         e('read_missing_nested_member_of_empty_object', 'h_e2e_read_missing', 'CANARY_E2E_READ', ['C06', 'C04'], ['E2E_READ=1', 'READ_SEL=7', 'READ_ROOT=0x20'], cls='B')]},
+        {'unit': 'api_e2e_set', 'props': ['C05', 'C04'], 'tu': 'api', 'configs': ['s1p16'], 'quick_configs': ['s1p16'],
          'roots': E2E_COMMON + ['api::e2e_set_variant'],
          'stubs': ['DefaultAllocator__instance'] + CUT_CONTAINERS, 'spec': SPEC, 'native': True,
-         'obligations': [e('set_twice_reports_each_failure_' + n, 'h_e2e_set_twice', 'CANARY_E2E_SET', ['C05', 'C04'], ['E2E_SET=1', 'EXT_KIND=' + k], timeout=300)
+         'obligations': [e('set_twice_reports_each_failure_' + n, 'h_e2e_set_twice', 'CANARY_E2E_SET', ['C05', 'C04'], ['E2E_SET=1', 'EXT_KIND=' + k], cls='B', timeout=300)
                          for n, k in (('uint64', '0x1A'), ('double', '0x1E'))]},
         {'unit': 'api_e2e_float', 'props': ['C13'], 'tu': 'api', 'configs': ['def64', 'nodbl'], 'quick_configs': ['def64', 'nodbl'],
          'roots': E2E_COMMON + ['api::e2e_as_float', 'api::e2e_as_double'],
          'stubs': ['DefaultAllocator__instance', 'parseNumber_float', 'parseNumber_double'], 'spec': SPEC, 'native': True,
          'obligations': [e('as_float_of_stored_integer_is_nearest', 'h_e2e_as_float', 'CANARY_E2E_FLOAT', ['C13'], ['E2E_FLOAT=1'], timeout=300)]},
-        {'unit': 'api_e2e_copy', 'props': ['C04', 'C06'], 'tu': 'api', 'configs': ['def64', 's1p16'], 'quick_configs': ['s1p16'],
+        {'unit': 'api_e2e_copy', 'props': ['C04', 'C06'], 'tu': 'api', 'configs': ['s1p16'], 'quick_configs': ['s1p16'],
          'roots': E2E_COMMON + ['copyVariant', 'VariantData::clear|VariantData *, ResourceManager *'],
          'stubs': ['DefaultAllocator__instance'] + CUT_CONTAINERS, 'spec': SPEC, 'native': True,
-         'obligations': [e('copy_owns_its_own_slot_' + n, 'h_e2e_copy_ext', 'CANARY_E2E_COPY', ['C04', 'C06'], ['E2E_COPY=1', 'EXT_KIND=' + k], timeout=300)
+         'obligations': [e('copy_owns_its_own_slot_' + n, 'h_e2e_copy_ext', 'CANARY_E2E_COPY', ['C04', 'C06'], ['E2E_COPY=1', 'EXT_KIND=' + k], cls='B', timeout=300)
                          for n, k in (('uint64', '0x1A'), ('int64', '0x1C'), ('double', '0x1E'))]},
-        {'unit': 'api_e2e_add', 'props': ['C19', 'C06', 'C05'], 'tu': 'api', 'configs': ['s1p16', 's1p3i1'], 'quick_configs': ['s1p16'],
+        {'unit': 'api_e2e_add', 'props': ['C19', 'C06', 'C05'], 'tu': 'api', 'configs': ['s1p16'], 'quick_configs': ['s1p16'],
          'roots': E2E_COMMON + ['api::e2e_array_add_variant', 'api::e2e_array_add_int'],
          'stubs': ['DefaultAllocator__instance'] + CUT_CONTAINERS, 'spec': SPEC, 'native': True,
-         'obligations': [e('failed_add_gives_its_slot_back', 'h_e2e_add_failure', 'CANARY_E2E_ADD', ['C19', 'C06', 'C05'], ['E2E_ADD=1', 'EXT_KIND=0x1A'], timeout=300)]},
+         'obligations': [e('failed_add_gives_its_slot_back', 'h_e2e_add_failure', 'CANARY_E2E_ADD', ['C19', 'C06', 'C05'], ['E2E_ADD=1', 'EXT_KIND=0x1A'], cls='B', timeout=300)]},
     ]
     units += [
-        {'unit': 'api_e2e_unstored', 'props': ['C04'], 'tu': 'api', 'configs': ['def64', 's1p16'], 'quick_configs': ['s1p16'],
+        {'unit': 'api_e2e_unstored', 'props': ['C04'], 'tu': 'api', 'configs': ['s1p16'], 'quick_configs': ['s1p16'],
          'roots': E2E_COMMON + ['api::e2e_element_set_cstr', 'api::e2e_member_set_cstr', 'api::e2e_element_set_int'],
          'stubs': ['DefaultAllocator__instance', 'CollectionData__clear__ResourceManager_p'], 'spec': SPEC, 'native': True,
-         'obligations': [e('set_true_means_stored', 'h_e2e_unstored', 'CANARY_E2E_UNSTORED', ['C04'], ['E2E_UNSTORED=1'])]},
-        {'unit': 'api_e2e_arrayset', 'props': ['C04', 'C05', 'C06'], 'tu': 'api', 'configs': ['def64', 's1p16'], 'quick_configs': ['s1p16'],
-         'roots': E2E_COMMON + ['api::e2e_array_set', 'api::e2e_array_add_int'],
-         'stubs': ['DefaultAllocator__instance', 'VariantRefBase_JsonVariant__set_JsonArrayConst', 'VariantRefBase_JsonVariant__set_JsonObjectConst'], 'spec': SPEC, 'native': True,
-         'obligations': [e('array_set_replaces_content_' + n, 'h_e2e_array_set', 'CANARY_E2E_ARRAYSET', ['C04', 'C05', 'C06'], ['E2E_ARRAYSET=1', 'ARRAYSET_N=' + k], cls='B', timeout=300, tier='thorough')
-                         for n, k in (('from_empty', '0'), ('from_one', '1'))]},
+         'obligations': [e('set_true_means_stored', 'h_e2e_unstored', 'CANARY_E2E_UNSTORED', ['C04'], ['E2E_UNSTORED=1'], cls='B')]},
     ]
     for u in units:
         u['shim'] = {'tu_include': 'api.cpp'}   # the native replay links the REAL instantiations of tu/api.cpp
+        if u['unit'] != 'api_e2e_float':
+            u['bound_note'] = 'fixed small documents (a new / empty document, one or two fresh slots, one 16-slot pool); full value domains'   # the native replay links the REAL instantiations of tu/api.cpp
     return units
 
 
